@@ -34,8 +34,9 @@ CONFIGS = {
     "p32-san": ("g++", ["-DDISABLE_ASM", "-U__SIZEOF_INT128__", "-fsanitize=address,undefined", "-fno-sanitize-recover=undefined", "-fno-omit-frame-pointer"], False),
     # ARM binding layer on the host: portable build + the ARM specialisation headers force-included; the assembly symbols are
     # provided by shim/extra/glue_*.cpp (plain C), the real assembly is executed by vf/arm under interpreters
-    "glue-a64": ("clang++", ["-DDISABLE_ASM", "-include", "core/arch/aarch64/bigint.hpp", "-include", "core/arch/aarch64/fp.hpp"], False),
-    "glue-v6m": ("clang++", ["-DDISABLE_ASM", "-U__SIZEOF_INT128__", "-include", "core/arch/armv6_m/bigint.hpp", "-include", "core/arch/armv6_m/fp.hpp"], False),
+    # (plain char is unsigned on the ARM ABIs: -funsigned-char makes code that stores -1 in a char behave as it does there)
+    "glue-a64": ("clang++", ["-DDISABLE_ASM", "-funsigned-char", "-include", "core/arch/aarch64/bigint.hpp", "-include", "core/arch/aarch64/fp.hpp"], False),
+    "glue-v6m": ("clang++", ["-DDISABLE_ASM", "-U__SIZEOF_INT128__", "-funsigned-char", "-include", "core/arch/armv6_m/bigint.hpp", "-include", "core/arch/armv6_m/fp.hpp"], False),
 }
 # per-configuration extra sources: (files under /verif, files under the repository)
 CONFIG_EXTRA = {
